@@ -393,6 +393,10 @@ def _c10_fixed():
             steps = [{"op": "adv", "to": 5000}] + [{"op": "timeout"} for _ in range(4)] + [{"op": "adv", "to": 5400}, {"op": "rs", "src": "fe80::a1"}] + \
                     [{"op": "timeout"} for _ in range(min(k, 4))] + [{"op": "adv", "to": 9000}]
             out.append({"cfg": dict(DEF["cfg"], mode=mode), "steps": steps, "src": "timeouts-reset-%d" % k})
+    # every initial RA of a re-established session fails with a system call error while the dials succeed (known finding)
+    out.append({"cfg": dict(DEF["cfg"]), "src": "redial-loop",
+                "steps": [{"op": "adv", "to": 5000}, {"op": "failw", "dst": "allnodes", "class": "sys"}, {"op": "link"}, {"op": "adv", "to": 9000},
+                          {"op": "failw", "dst": "allnodes", "class": ""}, {"op": "adv", "to": 14000}, {"op": "rs", "src": "fe80::a1"}, {"op": "adv", "to": 16000}]})
     # timeouts interleaved with INVALID messages: those neither consume nor refill the retry budget, nor restart the back-off
     for mode in ("adv", "mon"):
         for a in (1, 3, 4):
